@@ -65,6 +65,8 @@ class Cfg:
         self.intrinsics = True
         self.terminating_main = False
         self.terminating_with_funcs = False
+        self.call_bias = 0  # extra percentage of statements that are calls
+        self.tail_call_bias = 0  # percentage of functions that end in a statement call
         self.__dict__.update(kw)
 
 
@@ -266,6 +268,9 @@ class ProgGen:
         n = n if n is not None else self.n(1, 2)
         pad = "    " * ind
         for _ in range(n):
+            if self.cfg.call_bias and self.funcs and not self.no_calls and self.chance(self.cfg.call_bias):
+                out.append(pad + self.call_stmt(vars_))
+                continue
             k = self.n(0, 99)
             if k < 22:
                 out.append(pad + self.write(vars_))
@@ -427,6 +432,12 @@ class ProgGen:
         L += body
         if has_ret:
             L.append(f"    return {self.expr(vars_)}")
+        elif self.cfg.tail_call_bias and self.funcs and self.chance(self.cfg.tail_call_bias):
+            cands = [f for f in self.funcs if not f["has_ret"]] or self.funcs
+            f = self.choice(cands)
+            f["calls"] += 1
+            self.features.add("ends-in-call")
+            L.append(f"    {f['name']}({', '.join(self.arg(vars_) for _ in range(f['npar']))})")
         self.ro = ro_before | {p for p in params}
         self.frozen = frozen_before
         self.funcs.append({"name": name, "npar": npar, "has_ret": has_ret, "calls": 0})
